@@ -373,7 +373,8 @@ def _tlc_graph(B, G, K, policy):
             f.write(f'CONSTANTS B = {B}\n G = {G}\n MaxOps = {K}\n Policy = "{policy}"\nINIT Init\nNEXT Next\n'
                     f'INVARIANT NeverOverfull\n')
         p = subprocess.run(['tlc', '-workers', '1', '-noGenerateSpecTE', '-deadlock', '-metadir', os.path.join(d, 'meta'),
-                            '-dump', 'dot,actionlabels', 'out', 'OutBuf'], cwd=d, capture_output=True, text=True, timeout=600)
+                            '-dump', 'dot,actionlabels', 'out', 'OutBuf'], cwd=d, capture_output=True, text=True, timeout=600,
+                           env=dict(os.environ, JAVA_TOOL_OPTIONS=f'-Djava.io.tmpdir={d}'))    # TLC's own temp dirs too
         if 'No error has been found' not in p.stdout:
             raise RuntimeError('TLC: ' + (p.stdout + p.stderr)[-600:])
         mm = re.search(r'(\d+) states generated, (\d+) distinct states found', p.stdout)
